@@ -45,6 +45,9 @@ func checkC16(p *Prog, r *Report) {
 	c17NilStore16(p, r)
 	c16AddKeepsPool(p, r)
 	c16Heartbeats(p, r)
+	// an event dropped between the control connection and the control loop is a topology change never followed
+	r.borrow("C14", "C16", func() { c14Handoff(p, r) })
+	connectBounded(p, r, "C16.connect-bounded")
 }
 
 func c17NilStore16(p *Prog, r *Report) {
@@ -180,12 +183,8 @@ type timerInfo struct {
 // the timer, the pending flag, the connection) whose methods hold the loop body.
 func keeperType(p *Prog, fn *ssa.Function) *types.Named {
 	var kt *types.Named
-	eachInstr(fn, func(in ssa.Instruction) {
-		a, ok := in.(*ssa.Alloc)
-		if !ok {
-			return
-		}
-		n := namedOf(a.Type())
+	consider := func(t types.Type) {
+		n := namedOf(t)
 		if n == nil || n.Obj().Pkg() == nil || !strings.HasPrefix(n.Obj().Pkg().Path(), modPath) {
 			return
 		}
@@ -198,8 +197,35 @@ func keeperType(p *Prog, fn *ssa.Function) *types.Named {
 				kt = n
 			}
 		}
+	}
+	eachInstr(fn, func(in ssa.Instruction) {
+		switch x := in.(type) {
+		case *ssa.Alloc:
+			consider(x.Type())
+		case *ssa.Call:
+			// built by a constructor function
+			if callee := x.Call.StaticCallee(); callee != nil && p.InRepo(callee) && callee.Signature.Results().Len() == 1 {
+				consider(callee.Signature.Results().At(0).Type())
+			}
+		}
 	})
 	return kt
+}
+
+// keeperFuncs: the methods of the loop-state struct and the constructor function(s) the loop
+// function builds it with.
+func keeperFuncs(p *Prog, fn *ssa.Function, kt *types.Named) []*ssa.Function {
+	if kt == nil {
+		return nil
+	}
+	out := p.methodsOf(kt)
+	eachCall(fn, func(c ssa.CallInstruction) {
+		if callee := c.Common().StaticCallee(); callee != nil && p.InRepo(callee) && callee.Blocks != nil && callee.Signature.Recv() == nil &&
+			callee.Signature.Results().Len() == 1 && namedOf(callee.Signature.Results().At(0).Type()) == kt {
+			out = append(out, callee)
+		}
+	})
+	return out
 }
 
 func classifyTimers(fn *ssa.Function, more ...*ssa.Function) *timerInfo {
@@ -242,7 +268,11 @@ func classifyTimers(fn *ssa.Function, more ...*ssa.Function) *timerInfo {
 						}
 					}
 				}
-				for _, o := range origins(x.Call.Args[0]) {
+				delayOrigins := origins(x.Call.Args[0])
+				if curProg != nil {
+					delayOrigins = originsInter(curProg, x.Call.Args[0], 2) // the delay may be a parameter of a small arming helper
+				}
+				for _, o := range delayOrigins {
 					if c, ok := o.(*ssa.Call); ok {
 						if c.Call.IsInvoke() && c.Call.Method.Name() == "NextDelay" {
 							kind[x] = "connect"
@@ -330,9 +360,10 @@ type loopResult struct {
 func simulateMaintenanceLoop(p *Prog, fn *ssa.Function, connectOK func(call ssa.CallInstruction, callee *ssa.Function) (tuple bool, match bool)) loopResult {
 	res := loopResult{resets: map[string]int{}}
 	kt := keeperType(p, fn)
-	var keeperFns []*ssa.Function
-	if kt != nil {
-		keeperFns = p.methodsOf(kt)
+	keeperFns := keeperFuncs(p, fn, kt)
+	isKeeperFn := map[*ssa.Function]bool{}
+	for _, kf := range keeperFns {
+		isKeeperFn[kf] = true
 	}
 	ti := classifyTimers(fn, keeperFns...)
 	// header: the block with the most predecessors that is a loop header
@@ -429,7 +460,7 @@ func simulateMaintenanceLoop(p *Prog, fn *ssa.Function, connectOK func(call ssa.
 	s := newSim(p)
 	if kt != nil {
 		// the loop body lives in the methods of the loop-state struct; its fields are the loop variables
-		s.Inline = func(f *ssa.Function) bool { return recvNamed(f) == kt && f.Parent() == nil }
+		s.Inline = func(f *ssa.Function) bool { return isKeeperFn[f] && f.Parent() == nil }
 		if stt, ok := kt.Underlying().(*types.Struct); ok {
 			for i := 0; i < stt.NumFields(); i++ {
 				s.Tracked[stt.Field(i)] = true
@@ -573,16 +604,45 @@ func c16Refresh(p *Prog, r *Report) {
 	r.Rule(rule, "TOPOLOGY_CHANGE and STATUS_CHANGE(UP) arm a host refresh; the refresh case re-reads the hosts; mergeHosts sends Add for keys not known before and Remove for keys no longer listed and adopts the new list; sessions create a pool on Add and cancel it on Remove; reconnect moves to the next known host")
 	cl := p.Named("proxycore", "Cluster")
 	sc := p.methodOf(cl, "stayConnected")
-	ti := classifyTimers(sc)
+	// the loop function, the private helpers of the cluster only it calls, and - when the loop state
+	// lives in a struct - that struct's methods and constructor
+	family := []*ssa.Function{sc}
+	for _, f := range withCallees(p, sc, 2) {
+		if f != sc && f.Parent() == nil && recvNamed(f) == cl && onlyCalledFrom(p, f, sc, 3) {
+			family = append(family, f)
+		}
+	}
+	kfs := keeperFuncs(p, sc, keeperType(p, sc))
+	family = append(family, kfs...)
+	ti := classifyTimers(sc, kfs...)
 	var bad []string
+	// where the refresh timer is armed: the NewTimer call, or a call of a helper that holds it
+	arming := map[*ssa.Function]bool{}
+	for _, f := range family {
+		eachInstr(f, func(in ssa.Instruction) {
+			if call, ok := in.(*ssa.Call); ok && callIsFunc(call, "time", "NewTimer") && ti.of(call) == "refresh" {
+				arming[f] = true
+			}
+		})
+	}
+	var armSites []*ssa.Call
+	for _, f := range family {
+		eachInstr(f, func(in ssa.Instruction) {
+			call, ok := in.(*ssa.Call)
+			if !ok {
+				return
+			}
+			if callIsFunc(call, "time", "NewTimer") && ti.of(call) == "refresh" {
+				armSites = append(armSites, call)
+			} else if callee := call.Call.StaticCallee(); callee != nil && arming[callee] && callee != f {
+				armSites = append(armSites, call)
+			}
+		})
+	}
 	// arms that create the refresh timer
 	for _, want := range []string{"TopologyChangeEvent", "StatusChangeEvent"} {
 		armed := false
-		eachInstr(sc, func(in ssa.Instruction) {
-			call, ok := in.(*ssa.Call)
-			if !ok || !callIsFunc(call, "time", "NewTimer") || ti.of(call) != "refresh" {
-				return
-			}
+		for _, call := range armSites {
 			for _, ct := range dominatingConds(call.Block()) {
 				if ex, ok := ct.Cond.(*ssa.Extract); ok && ct.Truth {
 					if ta, ok := ex.Tuple.(*ssa.TypeAssert); ok && typeIs(ta.AssertedType, "message", want) {
@@ -617,29 +677,24 @@ func c16Refresh(p *Prog, r *Report) {
 					})
 				}
 			}
-		})
+		}
 		if !armed {
 			bad = append(bad, want+" does not schedule a host refresh")
 		}
 	}
 	// status: only UP
 	upOnly := false
-	var scFns []*ssa.Function
-	for _, f := range withCallees(p, sc, 2) {
-		if f == sc || (f.Parent() == nil && recvNamed(f) == cl && onlyCalledFrom(p, f, sc, 3)) {
-			scFns = append(scFns, f)
-		}
-	}
+	scFns := family
 	for _, scf := range scFns {
-	eachInstr(scf, func(in ssa.Instruction) {
-		if bo, ok := in.(*ssa.BinOp); ok && bo.Op == token.EQL {
-			for _, side := range []ssa.Value{bo.X, bo.Y} {
-				if k, ok := side.(*ssa.Const); ok && k.Value != nil && k.Value.ExactString() == p.constOf("primitive", "StatusChangeTypeUp").ExactString() {
-					upOnly = true
+		eachInstr(scf, func(in ssa.Instruction) {
+			if bo, ok := in.(*ssa.BinOp); ok && bo.Op == token.EQL {
+				for _, side := range []ssa.Value{bo.X, bo.Y} {
+					if k, ok := side.(*ssa.Const); ok && k.Value != nil && k.Value.ExactString() == p.constOf("primitive", "StatusChangeTypeUp").ExactString() {
+						upOnly = true
+					}
 				}
 			}
-		}
-	})
+		})
 	}
 	if !upOnly {
 		bad = append(bad, "status events are not filtered for UP")
@@ -647,11 +702,13 @@ func c16Refresh(p *Prog, r *Report) {
 	// refresh case calls refreshHosts
 	rh := p.methodOf(cl, "refreshHosts")
 	called := false
-	eachCall(sc, func(c ssa.CallInstruction) {
-		if c.Common().StaticCallee() == rh && rh != nil {
-			called = true
-		}
-	})
+	for _, f := range family {
+		eachCall(f, func(c ssa.CallInstruction) {
+			if c.Common().StaticCallee() == rh && rh != nil {
+				called = true
+			}
+		})
+	}
 	if !called {
 		bad = append(bad, "the refresh timer case does not re-read the hosts")
 	}
@@ -663,33 +720,68 @@ func c16Refresh(p *Prog, r *Report) {
 	var mb []string
 	addOK, remOK, adopt := false, false, false
 	se := p.methodOf(cl, "sendEvent")
-	eachCall(mh, func(c ssa.CallInstruction) {
-		if c.Common().StaticCallee() != se {
-			return
+	// where an event is "decided": at the sendEvent call itself, or - when the call sits in a callback
+	// that mergeHosts hands to a diff helper - where the helper invokes that callback
+	decidedAt := func(c ssa.CallInstruction) []ssa.Instruction {
+		fn := c.Parent()
+		if fn == mh || fn.Parent() != mh {
+			return []ssa.Instruction{c.(ssa.Instruction)}
 		}
-		for _, o := range origins(c.Common().Args[1]) {
-			al, ok := o.(*ssa.Alloc)
-			if !ok {
-				continue
+		var out []ssa.Instruction
+		eachCall(mh, func(hc ssa.CallInstruction) {
+			h := hc.Common().StaticCallee()
+			if h == nil || h.Blocks == nil || !p.InRepo(h) {
+				return
 			}
-			switch {
-			case typeIs(al.Type(), "proxycore", "AddEvent"):
-				// in the branch where the key was NOT found among the existing hosts
-				for _, ct := range dominatingConds(c.Block()) {
-					if ex, ok := ct.Cond.(*ssa.Extract); ok && ex.Index == 1 && !ct.Truth {
-						if _, ok := ex.Tuple.(*ssa.Lookup); ok {
-							addOK = true
+			args := hc.Common().Args
+			hp := h.Params
+			for i, a := range args {
+				mc, ok := a.(*ssa.MakeClosure)
+				if !ok || mc.Fn != ssa.Value(fn) || i >= len(hp) {
+					continue
+				}
+				eachCall(h, func(dc ssa.CallInstruction) {
+					if dc.Common().Value == ssa.Value(hp[i]) {
+						out = append(out, dc.(ssa.Instruction))
+					}
+				})
+			}
+		})
+		return out
+	}
+	scanFns := []*ssa.Function{mh}
+	scanFns = append(scanFns, mh.AnonFuncs...)
+	for _, sf := range scanFns {
+		eachCall(sf, func(c ssa.CallInstruction) {
+			if c.Common().StaticCallee() != se {
+				return
+			}
+			for _, o := range origins(c.Common().Args[1]) {
+				al, ok := o.(*ssa.Alloc)
+				if !ok {
+					continue
+				}
+				for _, site := range decidedAt(c) {
+					switch {
+					case typeIs(al.Type(), "proxycore", "AddEvent"):
+						// in the branch where the key was NOT found among the existing hosts
+						for _, ct := range dominatingConds(site.Block()) {
+							if ex, ok := ct.Cond.(*ssa.Extract); ok && ex.Index == 1 && !ct.Truth {
+								if _, ok := ex.Tuple.(*ssa.Lookup); ok {
+									addOK = true
+								}
+							}
+						}
+					case typeIs(al.Type(), "proxycore", "RemoveEvent"):
+						// while ranging over what is left of the existing map
+						if strings.HasPrefix(site.Block().Comment, "rangeiter") {
+							remOK = true
 						}
 					}
 				}
-			case typeIs(al.Type(), "proxycore", "RemoveEvent"):
-				// while ranging over what is left of the existing map
-				if strings.HasPrefix(c.Block().Comment, "rangeiter") {
-					remOK = true
-				}
 			}
-		}
-	})
+		})
+	}
 	eachInstr(mh, func(in ssa.Instruction) {
 		if st, ok := in.(*ssa.Store); ok {
 			if fa, ok := st.Addr.(*ssa.FieldAddr); ok && fieldOfAddr(fa) == hostsF && st.Val == ssa.Value(mh.Params[1]) {
@@ -699,11 +791,13 @@ func c16Refresh(p *Prog, r *Report) {
 	})
 	// found hosts are removed from the 'existing' set so that only vanished hosts remain
 	del := false
-	eachCall(mh, func(c ssa.CallInstruction) {
-		if b, ok := c.Common().Value.(*ssa.Builtin); ok && b.Name() == "delete" {
-			del = true
-		}
-	})
+	for _, df := range withCallees(p, mh, 1) {
+		eachCall(df, func(c ssa.CallInstruction) {
+			if b, ok := c.Common().Value.(*ssa.Builtin); ok && b.Name() == "delete" {
+				del = true
+			}
+		})
+	}
 	if !addOK {
 		mb = append(mb, "no AddEvent for hosts that were not known before (new nodes never receive requests)")
 	}
@@ -728,16 +822,8 @@ func c16Refresh(p *Prog, r *Report) {
 			oeFns = append(oeFns, f)
 		}
 	}
-	for _, of := range oeFns {
-	eachCall(of, func(c ssa.CallInstruction) {
-		args := c.Common().Args
-		if len(args) == 0 {
-			return
-		}
-		fa, ok := args[0].(*ssa.FieldAddr)
-		if !ok || fieldOfAddr(fa) != poolsF {
-			return
-		}
+	for _, op := range p.syncMapOps(poolsF, oeFns) {
+		c, of := op.Call, op.Fn
 		arm := ""
 		for _, ct := range dominatingConds(c.Block()) {
 			if ex, ok := ct.Cond.(*ssa.Extract); ok && ct.Truth {
@@ -768,24 +854,23 @@ func c16Refresh(p *Prog, r *Report) {
 				}
 			}
 		}
-		if (callIsMethod(c, "sync", "Map", "LoadOrStore") || callIsMethod(c, "sync", "Map", "Store")) && arm == "*proxycore.AddEvent" {
+		if (op.Kind == "LoadOrStore" || op.Kind == "Store") && arm == "*proxycore.AddEvent" {
 			addArm = true
 		}
-		if callIsMethod(c, "sync", "Map", "LoadAndDelete") && arm == "*proxycore.RemoveEvent" {
+		if op.Kind == "LoadAndDelete" && arm == "*proxycore.RemoveEvent" {
 			remArm = true
 		}
-	})
 	}
 	// removal cancels the pool
 	cancels := 0
 	for _, of := range oeFns {
-	eachInstr(of, func(in ssa.Instruction) {
-		if c, ok := in.(*ssa.Call); ok && c.Call.StaticCallee() == nil && !c.Call.IsInvoke() {
-			if f, _ := loadedField(c.Call.Value); f != nil && f.Name() == "cancel" {
-				cancels++
+		eachInstr(of, func(in ssa.Instruction) {
+			if c, ok := in.(*ssa.Call); ok && c.Call.StaticCallee() == nil && !c.Call.IsInvoke() {
+				if f, _ := loadedField(c.Call.Value); f != nil && f.Name() == "cancel" {
+					cancels++
+				}
 			}
-		}
-	})
+		})
 	}
 	if !addArm {
 		sb = append(sb, "AddEvent does not create a pool for the new host")
@@ -1042,43 +1127,78 @@ func c16AddKeepsPool(p *Prog, r *Report) {
 			scanFns = append(scanFns, withClosures(f)...)
 		}
 	}
-	for _, fn := range scanFns {
-		eachCall(fn, func(c ssa.CallInstruction) {
-			if !callIsMethod(c, "sync", "Map", "LoadOrStore") {
-				return
-			}
-			if f, ok := firstArgField(c); !ok || f != poolsF {
-				return
-			}
-			n++
-			call := c.(*ssa.Call)
-			// every cancel in this function whose receiver derives from the value LoadOrStore returned
-			eachCall(fn, func(cc ssa.CallInstruction) {
-				callee := cc.Common().StaticCallee()
-				var recv ssa.Value
-				switch {
-				case callee != nil && callee.Name() == "cancel" && len(cc.Common().Args) > 0:
-					recv = cc.Common().Args[0]
-				case callee == nil && !cc.Common().IsInvoke():
-					// p.cancel is a func field: the call's value is loaded from a field of the pool
-					if _, base := loadedField(cc.Common().Value); base != nil {
-						recv = base
-					}
-				}
-				if recv == nil {
+	for _, op := range p.syncMapOps(poolsF, scanFns) {
+		if op.Kind != "LoadOrStore" {
+			continue
+		}
+		n++
+		fn := op.Fn
+		call, isCall := op.Call.(*ssa.Call)
+		if !isCall {
+			continue
+		}
+		// which result of the site is the pool that was already in the map: the first result of
+		// LoadOrStore itself, or the result through which a typed wrapper hands it on (none when
+		// the wrapper only reports whether the pool was stored)
+		loadedIdx := []int{0}
+		if op.Wrapper != nil {
+			loadedIdx = nil
+			inner, _ := op.Inner.(*ssa.Call)
+			eachInstr(op.Wrapper, func(in ssa.Instruction) {
+				ret, ok := in.(*ssa.Return)
+				if !ok {
 					return
 				}
-				for _, o := range origins(recv) {
-					if ex, ok := o.(*ssa.Extract); ok && ex.Tuple == ssa.Value(call) && ex.Index == 0 {
-						bad = append(bad, p.Pos(cc.Pos())+": the pool returned by LoadOrStore (the one in service for that host) is cancelled")
+				for i, rv := range ret.Results {
+					for _, o := range origins(rv) {
+						if ex, ok := o.(*ssa.Extract); ok && inner != nil && ex.Tuple == ssa.Value(inner) && ex.Index == 0 {
+							loadedIdx = append(loadedIdx, i)
+						}
 					}
 				}
 			})
+		}
+		isLoaded := func(v ssa.Value) bool {
+			for _, o := range origins(v) {
+				if op.Wrapper != nil && op.Wrapper.Signature.Results().Len() == 1 {
+					if o == ssa.Value(call) && len(loadedIdx) > 0 {
+						return true
+					}
+					continue
+				}
+				if ex, ok := o.(*ssa.Extract); ok && ex.Tuple == ssa.Value(call) {
+					for _, i := range loadedIdx {
+						if ex.Index == i {
+							return true
+						}
+					}
+				}
+			}
+			return false
+		}
+		// every cancel in this function whose receiver derives from the value LoadOrStore returned
+		eachCall(fn, func(cc ssa.CallInstruction) {
+			callee := cc.Common().StaticCallee()
+			var recv ssa.Value
+			switch {
+			case callee != nil && callee.Name() == "cancel" && len(cc.Common().Args) > 0:
+				recv = cc.Common().Args[0]
+			case callee == nil && !cc.Common().IsInvoke():
+				// p.cancel is a func field: the call's value is loaded from a field of the pool
+				if _, base := loadedField(cc.Common().Value); base != nil {
+					recv = base
+				}
+			}
+			if recv == nil {
+				return
+			}
+			if isLoaded(recv) {
+				bad = append(bad, p.Pos(cc.Pos())+": the pool returned by LoadOrStore (the one in service for that host) is cancelled")
+			}
 		})
 	}
 	r.check(len(bad) == 0 && n > 0, rule, "Session.OnEvent#AddEvent", p.Pos(onEvent.Pos()), fmt.Sprintf("%d LoadOrStore site(s)", n), strings.Join(dedupe(bad), " || "))
 }
-
 
 // c16Heartbeats: what the heartbeat loop of a connection needs to detect a dead or hung backend,
 // and only that.
@@ -1206,4 +1326,94 @@ func c16Heartbeats(p *Prog, r *Report) {
 		bad = append(bad, "the idle timer is never re-armed")
 	}
 	r.check(len(bad) == 0, rule, "ClientConn.Heartbeats:idle-timer", p.Pos(hb.Pos()), fmt.Sprintf("%d re-arm site(s)", nreset), strings.Join(dedupe(bad), " || "))
+}
+
+// connectBounded: a connection attempt ends when its context does.  The reconnect loops of the
+// pools and of the control connection wait for Connect to return before they schedule the next
+// attempt or move on to another host: a step that ignores the deadline (a TLS handshake with a
+// peer that accepts the TCP connection and then says nothing) parks the loop for good, and the
+// control loop with it whoever waits for it.
+func connectBounded(p *Prog, r *Report, rule string) {
+	r.Rule(rule, "every step of proxycore.Connect that waits for the peer is bounded by the caller's context: the dial is DialContext, a TLS handshake is HandshakeContext with that context (or runs under a deadline set on the socket)")
+	var fn *ssa.Function
+	for _, f := range p.ScopedFuncs("proxycore") {
+		if f.Parent() == nil && callsDirectly(f, func(c ssa.CallInstruction) bool {
+			callee := c.Common().StaticCallee()
+			return callee != nil && callee.String() == "crypto/tls.Client"
+		}) {
+			fn = f
+		}
+	}
+	if fn == nil {
+		fatalf("rule %s: the function that wraps a backend socket in a TLS client was not found", rule)
+	}
+	var ctxPar ssa.Value
+	for _, par := range fn.Params {
+		if types.TypeString(par.Type(), nil) == "context.Context" {
+			ctxPar = par
+		}
+	}
+	fromCtx := func(v ssa.Value) bool {
+		for _, o := range originsInter(p, v, 1) {
+			if o == ctxPar {
+				return true
+			}
+			// a context derived from it (WithTimeout, WithCancel ...)
+			if ex, ok := o.(*ssa.Extract); ok {
+				if c, ok := ex.Tuple.(*ssa.Call); ok && len(c.Call.Args) > 0 && c.Call.Args[0] == ctxPar {
+					return true
+				}
+			}
+		}
+		return false
+	}
+	deadline := false
+	var bad []string
+	n := 0
+	for _, f := range withClosures(fn) {
+		eachCall(f, func(c ssa.CallInstruction) {
+			cm := c.Common()
+			name := ""
+			if cm.IsInvoke() {
+				name = cm.Method.Name()
+			} else if callee := cm.StaticCallee(); callee != nil {
+				name = callee.Name()
+			}
+			switch name {
+			case "SetDeadline", "SetReadDeadline":
+				deadline = true
+			}
+		})
+	}
+	for _, f := range withClosures(fn) {
+		eachCall(f, func(c ssa.CallInstruction) {
+			callee := c.Common().StaticCallee()
+			if callee == nil {
+				return
+			}
+			switch callee.String() {
+			case "(*net.Dialer).Dial", "net.Dial", "net.DialTimeout":
+				n++
+				if ctxPar != nil {
+					bad = append(bad, p.Pos(c.Pos())+": the dial ignores the caller's context")
+				}
+			case "(*net.Dialer).DialContext":
+				n++
+				if ctxPar == nil || !fromCtx(c.Common().Args[1]) {
+					bad = append(bad, p.Pos(c.Pos())+": the dial is not given the caller's context")
+				}
+			case "(*crypto/tls.Conn).Handshake":
+				n++
+				if !deadline {
+					bad = append(bad, p.Pos(c.Pos())+": the TLS handshake waits for the peer without the caller's context or a deadline: an endpoint that accepts the connection and then stays silent holds the reconnect loop (no further attempts, no fail-over) and whoever waits for it")
+				}
+			case "(*crypto/tls.Conn).HandshakeContext":
+				n++
+				if ctxPar == nil || !fromCtx(c.Common().Args[1]) {
+					bad = append(bad, p.Pos(c.Pos())+": the TLS handshake is not given the caller's context")
+				}
+			}
+		})
+	}
+	r.check(len(bad) == 0 && n >= 2, rule, "proxycore."+fn.Name(), p.Pos(fn.Pos()), fmt.Sprintf("%d waiting steps, all under the context", n), strings.Join(dedupe(bad), " || "))
 }
